@@ -21,6 +21,10 @@
 // SOFTWARE.
 
 mod arc;
+#[cfg(feature = "verif-models")]
+pub mod verif_model {
+    include!(concat!(env!("VERIF_HARNESS_DIR"), "/verif_model.rs"));
+}
 pub use arc::Arc;
 
 mod arc_payload;
@@ -49,7 +53,10 @@ pub(crate) mod tracing;
 /// let mut set = HashSet::default();
 /// set.insert("key");
 /// ```
+#[cfg(not(feature = "verif-models"))]
 pub type HashSet<T> = hashbrown::HashSet<T, foldhash::fast::RandomState>;
+#[cfg(feature = "verif-models")]
+pub type HashSet<T> = verif_model::HashSet<T>;
 
 /// Type alias for HashMap to provide a stable API abstraction over the underlying hash map implementation.
 ///
@@ -65,7 +72,10 @@ pub type HashSet<T> = hashbrown::HashSet<T, foldhash::fast::RandomState>;
 /// let mut map = HashMap::default();
 /// map.insert("key", "value");
 /// ```
+#[cfg(not(feature = "verif-models"))]
 pub type HashMap<K, V> = hashbrown::HashMap<K, V, foldhash::fast::RandomState>;
+#[cfg(feature = "verif-models")]
+pub type HashMap<K, V> = verif_model::HashMap<K, V>;
 
 /// Type alias for IndexMap to provide a stable API abstraction over the underlying hash map implementation.
 ///
@@ -81,4 +91,7 @@ pub type HashMap<K, V> = hashbrown::HashMap<K, V, foldhash::fast::RandomState>;
 /// let mut map = IndexMap::default();
 /// map.insert("key", "value");
 /// ```
+#[cfg(not(feature = "verif-models"))]
 pub type IndexMap<K, V> = indexmap::IndexMap<K, V, foldhash::fast::RandomState>;
+#[cfg(feature = "verif-models")]
+pub type IndexMap<K, V> = verif_model::IndexMap<K, V>;
